@@ -36,7 +36,7 @@ func init() {
 		MinDistinct:     floor(15000, 200000),
 		RequiredCells: func(string) []string {
 			return []string{"purity/encrypted-meta/history", "purity/encrypted-meta/concurrent", "roundtrip/constructed", "roundtrip/dagcbor", "roundtrip/dagjson", "roundtrip/delegation", "roundtrip/invocation", "roundtrip/string", "roundtrip/bytes",
-				"tamper/bitflip-nonce", "tamper/bitflip-mac", "tamper/bitflip-body", "tamper/truncate", "wrong-key", "wrong-key/related", "plaintext-absent", "fresh-nonce", "fresh-nonce/option-reused", "entropy-fault", "never-encrypted", "badkey/derived-from-right-key", "badkey/nil", "badkey/size", "badkey/zero", "len=0", "len=1024"}
+				"tamper/bitflip-nonce", "tamper/bitflip-mac", "tamper/bitflip-body", "tamper/truncate", "wrong-key", "wrong-key/related", "plaintext-absent", "fresh-nonce", "fresh-nonce/option-reused", "key-buffer-reused", "entropy-fault", "never-encrypted", "badkey/derived-from-right-key", "badkey/nil", "badkey/size", "badkey/zero", "len=0", "len=1024"}
 		},
 	})
 }
@@ -275,6 +275,50 @@ func runC19(w *mon.W) {
 				}
 			}
 		}
+	}
+
+	// ---- the caller's key BUFFER is reused: a value is stored under the key held in a slice,
+	// then the slice is overwritten in place - wiped, or filled with another key - and offered
+	// again. What counts is what the slice holds at the time of the call.
+	for i := 0; i < w.Pick(12, 60); i++ {
+		buf := gen.Bytes(r, 32)
+		first := append([]byte{}, buf...)
+		plain := gen.Bytes(r, 1+r.IntN(48))
+		m := meta.NewMeta()
+		if err := m.AddEncrypted("secret", plain, buf); err != nil {
+			continue
+		}
+		if i%2 == 0 {
+			// a successful read with the same buffer first
+			_, _ = m.GetEncryptedBytes("secret", buf)
+		}
+		w.Cover("key-buffer-reused")
+		// wiped in place: an all-zero key, to be refused
+		for k := range buf {
+			buf[k] = 0
+		}
+		if got, err := m.GetEncryptedBytes("secret", buf); err == nil {
+			w.Violate("badkey-accepted/get/buffer-wiped-in-place", fmt.Sprintf("the key buffer was wiped to zero in place after use; offered again it is accepted and returns %d bytes", len(got)), map[string]any{"first_key": mon.Hex(first)})
+		}
+		if err := meta.NewMeta().AddEncrypted("x", "v", buf); err == nil {
+			w.Violate("badkey-accepted/add/buffer-wiped-in-place", "the key buffer was wiped to zero in place after use; AddEncrypted accepts it", map[string]any{"first_key": mon.Hex(first)})
+		}
+		// another key drawn into the same buffer
+		copy(buf, gen.Bytes(r, 32))
+		second := append([]byte{}, buf...)
+		if got, err := m.GetEncryptedBytes("secret", buf); err == nil {
+			w.Violate("wrong-key-accepted/buffer-refilled-in-place", fmt.Sprintf("the key buffer was refilled with another key in place; it still reads the value stored under the first key (%d bytes)", len(got)), map[string]any{"first_key": mon.Hex(first), "second_key": mon.Hex(second)})
+		}
+		m2 := meta.NewMeta()
+		if err := m2.AddEncrypted("s2", plain, buf); err == nil {
+			if got, err := m2.GetEncryptedBytes("s2", second); err != nil || !bytes.Equal(got, plain) {
+				w.Violate("roundtrip/bytes-differ/buffer-refilled-in-place", fmt.Sprintf("a value stored under the second key held in a reused buffer cannot be read with a copy of that key: %v", err), map[string]any{"first_key": mon.Hex(first), "second_key": mon.Hex(second)})
+			}
+			if _, err := m2.GetEncryptedBytes("s2", first); err == nil {
+				w.Violate("wrong-key-accepted/buffer-refilled-in-place/old-key-reads-new-value", "a value stored under the second key (held in a reused buffer) is readable with the FIRST key", map[string]any{"first_key": mon.Hex(first), "second_key": mon.Hex(second)})
+			}
+		}
+		w.Eval(5)
 	}
 
 	// ---- one Option value applied to several tokens (a shared default-options slice): every
